@@ -68,6 +68,13 @@ inline void on_terminate()
   std::_Exit(78);
 }
 
+// per-run watchdog: a run that does not finish is a violation candidate of class `hang`
+inline void on_alarm(int)
+{
+  died();
+  std::_Exit(79);
+}
+
 inline std::string json_escape(std::string const &s)
 {
   std::string r;
@@ -157,6 +164,7 @@ inline int sim_main(int argc, char **argv)
   bool hashes = false, trace = false, thorough = false;
   unsigned enum_every = 0; // enumerate single faults for every k-th fault-free plan
   unsigned distinct_sample = 1;
+  unsigned run_timeout = 20; // seconds of wall clock per run (watchdog only, never a verdict input)
   for (int i = 1; i < argc; ++i)
   {
     std::string a = argv[i];
@@ -206,6 +214,7 @@ inline int sim_main(int argc, char **argv)
   std::signal(SIGBUS, &detail::on_signal);
   std::signal(SIGILL, &detail::on_signal);
   std::set_terminate(&detail::on_terminate);
+  std::signal(SIGALRM, &detail::on_alarm);
 
   if (mode == "gen")
   {
@@ -231,7 +240,9 @@ inline int sim_main(int argc, char **argv)
     Ctx ctx;
     ctx.trace = trace;
     ctx.probes = &probes;
+    ::alarm(run_timeout);
     detail::Outcome o = detail::run_plan(p, ctx);
+    ::alarm(0);
     if (o.violation)
     {
       std::printf(
@@ -268,6 +279,7 @@ inline int sim_main(int argc, char **argv)
     Plan p = detail::make_plan(seed, i, thorough);
     Ctx ctx;
     ctx.probes = &probes;
+    ::alarm(run_timeout);
     detail::Outcome o = detail::run_plan(p, ctx);
     ++executed;
     steps += ctx.steps;
@@ -315,6 +327,7 @@ inline int sim_main(int argc, char **argv)
               detail::current_fault() = faultbuf;
               Ctx c2;
               c2.probes = &probes;
+              ::alarm(run_timeout);
               detail::Outcome o2 = detail::run_plan(q, c2);
               ++enum_runs;
               steps += c2.steps;
@@ -339,6 +352,7 @@ inline int sim_main(int argc, char **argv)
         --next_enum;
     }
   }
+  ::alarm(0);
   detail::current_run() = -1;
   double const wall = std::chrono::duration<double>(clock::now() - t0).count();
   // statistics line (JSON)
